@@ -61,7 +61,7 @@ META = {
     "level_note": "Trusted: CPython's sys.monitoring LINE events; vf.gen.pygen's renderer; vf.session (replicates generator setup).",
 }
 PLAN = {
-    "quick": {"shards": 16, "examples": 96, "shrink_sigs": 2, "shrink_seconds": 25, "shrink_calls": 40},
+    "quick": {"shards": 16, "examples": 96, "shrink_sigs": 2, "shrink_seconds": 25, "shrink_calls": 40, "timeout": 3000},
     "thorough": {"shards": 16, "examples": 6000, "timeout": 3300, "shrink_sigs": 4, "shrink_seconds": 150, "shrink_calls": 400},
 }
 CHILD_TIMEOUT = 240.0
